@@ -28,7 +28,12 @@ def corpus():
                     continue
                 seen.append(raw)
                 out.append(raw)
-    return out
+    return out + EXTRA
+
+
+# statements carrying a label and / or a construct name (the catalogue has few of them)
+EXTRA = ["{L1} {n9}: do {n1} = 1, {d1}", "{n9}: if ({n1} > {d1}) then", "{L1} if ({n1} > {d1}) {n2} = '{s1}'", "{L1} {n9}: select case ({n1})",
+         "{L2} format ('{s1}', i{d1})", "{n9}: block", "{L1} end do {n9}"]
 
 
 def units(tier):
@@ -57,6 +62,16 @@ def units(tier):
                     has_comments = var in ("trail", "comment", "both", "semi_trail")
                     ic = ((rot // 14) % 4 == 0) if has_comments else ((rot // 14) % 2 == 0)
                     us.append(dict(h="items", raw=raw, j=j, o=o, amp=amp, var=var, sym=sym, ic=ic, cost=1))
+    # the statement on ONE physical line (not continued): every lexeme hole in turn, symbolic
+    for raw in corpus():
+        holes = T.holes_of(raw)
+        for var in ("plain", "trail", "semi", "semi_trail", "pre"):
+            for h in (holes or [None]):
+                rot += 1
+                if q and var != "plain" and rot % 3:
+                    continue
+                sym = "com" if (var in ("trail", "semi_trail") and rot % 2) else h
+                us.append(dict(h="items", raw=raw, j=-1, o=0, amp=False, var=var, sym=sym, ic=bool(rot % 2), cost=1))
     for k, src in enumerate(STREAMS):
         for n in ((4, 6) if q else (4, 6, 8)):
             for skip in (0, 4, 7):
@@ -99,16 +114,19 @@ def items(ctx):
         fillers.append("")
     if p["var"] in ("comment", "both"):
         fillers.append("  !" + (ctx.chars("fc", 2, "print") if sym == "com" else "fc"))
-    lay = LAY.free_layout(line, p["j"], p["o"], p["amp"], trail, fillers)
+    if p["j"] < 0:
+        lay = (["   " + ("z = 3 ; " if p["var"] == "pre" else "") + line + (" ; z = 3" if p["var"] in ("semi", "semi_trail") else "") + ((" !" + trail) if trail is not None else "")], "no")
+    else:
+        lay = LAY.free_layout(line, p["j"], p["o"], p["amp"], trail, fillers)
     if lay is None:
         ctx.check(True, "layout not applicable on this path")
         return
     phys, kind = lay
-    semi = p["var"] in ("semi", "semi_trail")
+    semi = p["var"] in ("semi", "semi_trail", "pre")
     last_comment = None
-    if semi:
+    if semi and p["j"] >= 0:
         phys[-1] = phys[-1] + " ; z = 3"
-    if p["var"] in ("trail", "both", "semi_trail"):
+    if p["var"] in ("trail", "both", "semi_trail") and p["j"] >= 0:
         last_comment = "! end"
         phys[-1] = phys[-1] + " " + last_comment
     src = "\n".join(["x = 1"] + phys + ["y = 2"]) + "\n"
@@ -122,13 +140,13 @@ def items(ctx):
     first_core = phys[0]
     if trail is not None:
         first_core = first_core[:len(first_core) - len(trail) - 2]
-    first_core = first_core.rstrip(" ")[:-1]
+    first_core = first_core.rstrip(" ")[:-1] if p["j"] >= 0 else line
     l1, n1, t1 = LAY.oracle_item(first_core + " zz")
     tag = ""
     if not ((l1 == label) and ((n1 is None) == (name is None)) and (n1 is None or (len(n1) == len(name) and n1 == name))):
         tag = " [label/construct name split from the statement by the continuation]"
-    want = [("L", "x=1", None, None, (1, 1)), ("L", LAY.squeeze(text), label, name, (2, 1 + n))]
-    if semi:
+    want = [("L", "x=1", None, None, (1, 1))] + ([("L", "z=3", None, None, (2, 2))] if p["var"] == "pre" else []) + [("L", LAY.squeeze(text), label, name, (2, 1 + n))]
+    if semi and p["var"] != "pre":
         want.append(("L", "z=3", None, None, (2, 1 + n)))
     if not p["ic"]:
         if trail is not None:
